@@ -173,12 +173,12 @@ w.after("for k in 0 .. nm1 //~67", """
 """)
 w.after("b.swap(m, k); //~73", """
         let ghost v = fwd(*a, ip@, k as nat, b0);
-        let ghost v1 = swapv(v, k as int, m as int);
+        let ghost v1 = swapv(v, k as int, ip@[k as int] as int);
         proof { lemma_fwd_len(*a, ip@, k as nat, b0); assert(rv(b@, n as int) =~= v1); }
 """)
 w.after("for i in kp1 .. n //~76", """
             invariant """ + LENS_S + """
-                k < nm1, kp1 == k + 1, k <= m < n, m == ip@[k as int], v.len() == n, v1 == swapv(v, k as int, m as int),
+                k < nm1, kp1 == k + 1, v.len() == n, v1 == swapv(v, k as int, ip@[k as int] as int),
                 forall|ii: int| n <= ii < b@.len() ==> b@[ii] == old(b)@[ii],   // [C16] solve.tail_kept
                 forall|ii: int| 0 <= ii < n ==> R(#[trigger] b@[ii]) == (if k < ii < i { v1[ii] + ra(*a, ii, k as int) * v1[k as int] } else { v1[ii] }),   // [C16] solve.forward_step_rows_done
 """)
